@@ -1,6 +1,9 @@
 def _sig(c, v):
     o = c["desc"]["observed"]
     sc = c["desc"]["scenario"]
+    if v == 1 and 2 in (sc.get("held_before_serve_loop") or []):
+        if o["stop_returned_while_requests_blocked"] or not all(o["port_refuses"]):
+            return "stop-during-start-did-not-stop-everything:1"
     if v == 1 and sc.get("held_before_serve_loop"):
         if o["stop_returned_while_requests_blocked"]:
             return "stop-returned-before-provider-goroutine:1"
@@ -29,12 +32,12 @@ SPEC = {
     "runners": [{
         "kind": "coqcases", "module": "CorrC18", "harness": "c18", "corr": "Run/CorrC18.v (monitor of the lifecycle clauses + prediction of Model/Lifecycle.v vs a running server.Server)",
         "timeout": 3000, "sigfn": _sig,
-        "rule": "each case = one life of a real server.Server on loopback (HTTP, HTTPS with a certificate generated at run time, gRPC example service): Start, real requests until every listener answers, k requests per provider blocked inside their handlers (scripted: handlers wait on a channel), Stop with an ample / already expired / expiring context, release, then WaitGroup, connection-refused and re-bind checks (and for some a second server on the same ports); or Start immediately followed by Stop after a 0-5000us pause. Generation: every non-empty provider subset x in-flight patterns x context kinds; immediate stops repeated with varying pauses; seeded random scenarios. Observations that look wrong are re-run up to 3 times and reported only if they reproduce every time. distinct = by (providers, in-flight vector, context kind, immediate, pause, idle connections, TLS mode, restart); every case is non-trivial (at least one provider).",
+        "rule": "each case = one life of a real server.Server on loopback (HTTP, HTTPS with a certificate generated at run time, gRPC example service): Start, real requests until every listener answers, k requests per provider blocked inside their handlers (scripted: handlers wait on a channel), Stop with an ample / already expired / expiring context, release, then WaitGroup, connection-refused and re-bind checks (and for some a second server on the same ports); or Start immediately followed by Stop after a 0-5000us pause; or scripted schedules through a blocking logger: HTTP/HTTPS provider goroutines held between startWg.Done and ListenAndServe (Stop before the serve loop), the gRPC provider goroutine held before it listens and signals (Stop issued WHILE Start is still in progress). Generation: every non-empty provider subset x in-flight patterns x context kinds; immediate stops repeated with varying pauses; seeded random scenarios. Observations that look wrong are re-run up to 3 times and reported only if they reproduce every time. distinct = by (providers, in-flight vector, context kind, immediate, pause, idle connections, TLS mode, restart); every case is non-trivial (at least one provider).",
     }],
     "trusted": [
         "net/http.Server and grpc.Server are NOT modelled; the theorems constrain them only by the contracts L1-L3 (and their converses where stated), which are Section hypotheses closed by the instance lib_serve_ret/lib_drain_ret",
         "real sockets: reachability, connection draining and port release are observed by the harness only (PARTIAL by design)",
-        "Stop is called after Start has returned (sequential caller); Stop concurrent with a running Start is outside the model and the property",
+        "Stop may be issued from another goroutine once Start has launched every provider (model: two program counters); a Stop overlapping Start's launching loop itself would call WaitGroup.Wait concurrently with Add at counter zero (forbidden by sync.WaitGroup) and is excluded",
     ],
     "assumptions": [
         "listening succeeds (ports free): GrpcProvider.Start continues after a failed net.Listen and Serve(nil) panics - outside the property, see notes/C18.md",
